@@ -16,9 +16,25 @@ def impl(case):
             try:
                 r = pauli_string_parser(t)
                 r2 = str(PauliString(pauli_str=t))
-                out.append(["ok", r] if r == r2 else ["mismatch", r, r2])
+                # every entry point that reads a text: the factory with and without a length, the list form
+                k = len(r)
+                alt = {"PauliString": r2, "get_pauli_string(t)": str(get_pauli_string(t)),
+                       "get_pauli_string(t, n+2)": str(get_pauli_string(t, n=k + 2))[:k] + "|" + str(get_pauli_string(t, n=k + 2))[k:],
+                       "PauliString(t, n+1)": str(PauliString(pauli_str=t, n=k + 1))[:k] + "|" + str(PauliString(pauli_str=t, n=k + 1))[k:],
+                       "get_pauli_string(t, n-1)": str(get_pauli_string(t, n=max(0, k - 1))),
+                       "get_pauli_string([t])": "/".join(str(x) for x in get_pauli_string([t]))}
+                want = {"PauliString": r, "get_pauli_string(t)": r, "get_pauli_string(t, n+2)": r + "|II", "PauliString(t, n+1)": r + "|I",
+                        "get_pauli_string(t, n-1)": r, "get_pauli_string([t])": r}
+                bad = sorted(kk for kk in want if alt[kk] != want[kk])
+                out.append(["ok", r] if not bad else ["mismatch", r, {kk: alt[kk] for kk in bad}])
             except ValueError:
-                out.append(["ValueError"])
+                try:
+                    get_pauli_string(t)
+                    out.append(["mismatch", "ValueError", "get_pauli_string accepts it"])
+                except ValueError:
+                    out.append(["ValueError"])
+                except Exception as e:  # noqa
+                    out.append(["other", type(e).__name__])
             except Exception as e:  # noqa
                 out.append(["other", type(e).__name__])
         return {"res": out}
